@@ -203,12 +203,15 @@ class Ctx:
                 path = os.path.join(CASES, name + '.v')
                 with open(path, 'w') as f:
                     f.write(text)
-                p = subprocess.Popen(['timeout', str(timeout), 'coqc', '-Q', '.', 'VQ', os.path.join('Cases', name + '.v')],
-                                     cwd=COQ, stdout=subprocess.PIPE, stderr=subprocess.STDOUT, text=True)
+                outf = open(os.path.join(CASES, name + '.out'), 'w')
+                p = subprocess.Popen(['timeout', str(timeout), 'coqc', '-w', '-all', '-Q', '.', 'VQ', os.path.join('Cases', name + '.v')],
+                                     cwd=COQ, stdout=outf, stderr=subprocess.STDOUT, text=True)
+                outf.close()
                 running.append((name, p))
             for name, p in list(running):
                 if p.poll() is not None:
-                    results[name] = (p.returncode, p.stdout.read())
+                    with open(os.path.join(CASES, name + '.out')) as fo:
+                        results[name] = (p.returncode, fo.read(2_000_000))
                     running.remove((name, p))
             time.sleep(0.02)
         self.case_files += len(files)
